@@ -370,7 +370,9 @@ func deepEq(a, b reflect.Value, seen map[[2]unsafe.Pointer]bool, depth int) bool
 	return false
 }
 
-// ---------- Havoc: fill numeric/bool leaves reachable from ptr with inputs (maps, strings untouched) ----------
+// ---------- Havoc: fill numeric/bool leaves reachable from ptr with inputs named by access path ----------
+// Strings, funcs, channels are left alone; maps with string keys and pointer values are descended in
+// sorted key order; *time.Location is not followed. Mirrors the executor's havoc exactly.
 
 func Havoc(ptr interface{}, name string) {
 	v := reflect.ValueOf(ptr)
@@ -382,6 +384,9 @@ func Havoc(ptr interface{}, name string) {
 
 func havocPtr(p reflect.Value, name string, seen map[unsafe.Pointer]bool) {
 	if p.IsNil() {
+		return
+	}
+	if p.Type().Elem().PkgPath() == "time" {
 		return
 	}
 	k := unsafe.Pointer(p.Pointer())
@@ -423,11 +428,11 @@ func havocVal(v reflect.Value, name string, seen map[unsafe.Pointer]bool) {
 			return
 		}
 		for i := 0; i < v.NumField(); i++ {
-			havocVal(v.Field(i), name, seen)
+			havocVal(v.Field(i), name+"."+v.Type().Field(i).Name, seen)
 		}
 	case reflect.Array, reflect.Slice:
 		for i := 0; i < v.Len(); i++ {
-			havocVal(v.Index(i), name, seen)
+			havocVal(v.Index(i), fmt.Sprintf("%s[%d]", name, i), seen)
 		}
 	case reflect.Ptr:
 		havocPtr(v, name, seen)
@@ -435,7 +440,17 @@ func havocVal(v reflect.Value, name string, seen map[unsafe.Pointer]bool) {
 		if !v.IsNil() && v.Elem().Kind() == reflect.Ptr {
 			havocPtr(v.Elem(), name, seen)
 		}
+	case reflect.Map:
+		if v.IsNil() || v.Type().Key().Kind() != reflect.String || v.Type().Elem().Kind() != reflect.Ptr {
+			return
+		}
+		var keys []string
+		for _, k := range v.MapKeys() {
+			keys = append(keys, k.String())
+		}
+		sort.Strings(keys)
+		for _, k := range keys {
+			havocPtr(v.MapIndex(reflect.ValueOf(k).Convert(v.Type().Key())), fmt.Sprintf("%s[%s]", name, k), seen)
+		}
 	}
 }
-
-var _ = sort.Strings
